@@ -10,6 +10,7 @@
 #undef idna_strerror
 
 long verif_resconf_created, verif_resconf_destroyed, verif_resconf_live, verif_resconf_bad_destroy;
+int verif_resconf_fail_next;          /* the harness sets it: the next idn_resconf_create reports a failure (as idnkit does without memory) */
 struct verif_idn_resconf { int live; };
 
 int idna_to_ascii_lz (const char *input, char **output, int flags)
@@ -31,6 +32,7 @@ const char *idna_strerror (int rc) { return idn2_strerror (rc); }
 int idn_resconf_initialize (void) { return 0; }
 int idn_resconf_create (struct verif_idn_resconf **ctx)
 {
+    if (verif_resconf_fail_next) { verif_resconf_fail_next = 0; return 12; }      /* idn_nomemory; *ctx is left untouched */
     *ctx = malloc (sizeof **ctx);
     (*ctx)->live = 1;
     /* relaxed atomics: the counters are also updated from the threads of the TSan harness */
